@@ -595,6 +595,8 @@ def c12_doc(p):
             tpl += [f(f'b{j}'), g(f'b{j}'), "\n"]
         elif kind == 'ready':  # nested ready default-strategy element (three lines)
             tpl += [f(f'b{j}'), g(f'b{j}'), O('t', RT), "\n", f(f'b{j}'), "z\n", f(f'b{j}'), g(f'b{j}c'), C('t'), "\n"]
+        elif kind == 'pending':
+            tpl += [f(f'b{j}'), g(f'b{j}'), O('t', PT), "\n", f(f'b{j}'), g(f'b{j}i'), "z\n", f(f'b{j}'), g(f'b{j}c'), C('t'), "\n"]
         elif kind == 'unwrap':  # nested ready unwrap block with two inner lines
             tpl += [f(f'b{j}'), g(f'b{j}'), O('t', RT + ' unwrap-block'), "\n", f(f'b{j}'), g(f'b{j}w'), "[\n",
                     f(f'b{j}i'), g(f'b{j}i'), "M0\n", f(f'b{j}i'), g(f'b{j}k'), "M1\n", f(f'b{j}'), "]\n", f(f'b{j}'), g(f'b{j}c'), C('t'), "\n"]
@@ -679,16 +681,13 @@ def c12_dedent(ctx, p):
         exp_lines.append([b for k, b in enumerate(l) if k not in cols])
         free.append(len(B.strip(l)) == 0)
     got = split_lines(out)
-    if got and got[-1] == []:
-        got.pop()
+    # whitespace-only lines carry no dedent obligation (and a removed nested element may leave one behind): compare the
+    # non-blank lines, in order
+    got = [l for l in got if B.strip(l)]
+    exp_lines = [l for l, fr in zip(exp_lines, free) if not fr]
     if len(got) != len(exp_lines):
-        raise PathAbort()  # line count differs: blank-line residue is C13's subject, not a dedent question
-    okv = []
-    for g_, x, fr in zip(got, exp_lines, free):
-        if fr:
-            okv.append(len(g_) <= len(x))
-        else:
-            okv.append(len(g_) == len(x) and b_and(same(a, b) for a, b in zip(g_, x)))
+        raise PathAbort()  # a different set of surviving lines is C11 / C13's subject, not a dedent question
+    okv = [len(g_) == len(x) and b_and(same(a, b) for a, b in zip(g_, x)) for g_, x in zip(got, exp_lines)]
     ctx.check(b_and(okv), f'dedent differs: got {show_lines(got)} expected {show_lines(exp_lines)}',
               (lambda: 'unwrap-block-on-first-line-wrong-dedent' if all(b != 10 for b in src[1:unwraps[0]['open']['start']]) else 'dedent-mismatch'))
 
@@ -706,7 +705,7 @@ def c12_jobs(tier, seed):
         for hs in hole_sets:
             for pre in ((1, 0) if tier != 'quick' or fname in ('none', 'nested2sp') else (1,)):
                 J(f'dedent fixed={fname} pre={pre} holes={hs}', fixed=fixed, holes=hs, body=['code', 'code', 'code'], pre=pre)
-    for body in (['code', 'blank', 'code'], ['code', 'ready', 'code'], ['code', 'unwrap', 'code'], ['unwrap'], ['code', 'code', 'unwrap']):
+    for body in (['code', 'blank', 'code'], ['code', 'ready', 'code'], ['ready', 'code', 'code'], ['pending', 'code'], ['code', 'unwrap', 'code'], ['unwrap'], ['code', 'code', 'unwrap']):
         for fname, fixed in (('2sp', ind2), ('nested2sp', ind_nested)):
             fx = dict(fixed)
             for j in range(len(body)):
